@@ -274,7 +274,7 @@ def scenarios(tier, rnd):
         bodies = {"delay": ["val", "slow", "throw1", "throw"], "promise": ["-"],
                   "future": ["val", "slow", "throw", "timeout"]}
         n = 0
-        while n < 90:
+        while n < 40:
             kind = rnd.choice(["delay", "promise", "future"])
             progs = [[rnd.choice(ops[kind]) for _ in range(rnd.randint(1, 3))] for _ in range(rnd.randint(2, 4))]
             sc = {"kind": kind, "body": rnd.choice(bodies[kind]), "progs": progs}
@@ -420,7 +420,7 @@ def run(chk):
                 "history in which two calls overlap")
     scs = scenarios(chk.tier, rnd)
     max_pre = 2 if chk.tier == "quick" else 3
-    limit = 650 if chk.tier == "quick" else 12000
+    limit = 650 if chk.tier == "quick" else 3000
     ctx = mp.get_context("fork")
     with ctx.Pool(14) as pool:           # forked before any thread exists in this process
         collect = design_checks(chk)     # TLC design checks run in the background meanwhile
